@@ -155,16 +155,23 @@ def run(rec, tier, seed):
                 continue
             bases.append(dict(cell=cell, pattern=pat, copies=2, seed=seed * 100 + pi * 10 + ci, decoys=2, noise=0.004,
                               mirror=1 if pat == 'chiral4' else 0, near_miss=1))
+    for cell in ('cubic', 'rhombo', 'rhombo-'):
+        bases.append(dict(special='through-faces', cell=cell, pattern='long5', seed=seed * 100 + 77))
+    for pat in ('pair-y', 'collinear3-y', 'planar3-y', 'planar3-z'):
+        for which in range(3):
+            bases.append(dict(special='axis-poses', cell='cubic', pattern=pat, which=which, seed=seed * 100 + 78))
     for spec in bases:
         case = load_case(spec)
         ts = transforms(case, tier, seed)
-        if not spec.get('special'):
+        if spec.get('special') == 'boundary':
+            ts = [t for t in ts if t[0] in ('shift', 'perm', 'motion')]
+        else:
             hs = valid_hints(case['pattern'])
             if tier == 'quick':
-                hs = hs[::3]
+                hs = hs[::3] if not spec.get('special') else hs[::2]
             ts += [('hints', h) for h in hs]
-        else:
-            ts = [t for t in ts if t[0] in ('shift', 'perm', 'motion')]
+            if spec.get('special') == 'axis-poses':
+                ts = [t for t in ts if t[0] in ('motion', 'seed', 'hints', 'perm')]
         for t in ts:
             msg, n = check(spec, t)
             rec.case(repr((sorted(spec.items()), t)), nontrivial=(n > 0 or bool(spec.get('special'))),
